@@ -24,13 +24,23 @@ SPEC = {
     "onset_wrong_groups": "TEMPORAL_TAG_ERROR", "onset_tag_outside": "TEMPORAL_TAG_ERROR",
     "duration_other_tags": "TEMPORAL_TAG_ERROR", "duration_wrong_groups": "TEMPORAL_TAG_ERROR",
     "top_level_copy": "TAG_GROUP_ERROR", "tag_group_copy": "TAG_GROUP_ERROR",
+    "repeat_nested": "TAG_EXPRESSION_REPEATED",
 }
 
 # definitions handed to the DefinitionDict
 DEFS = ["(Definition/MyDef,(Blue,Red))", "(Definition/ValDef/#,(Green,Label/#))",
         "(Definition/OnDef,(Blue))", "(Definition/OnVal/#,(Label/#))", "(Definition/OnDef2,(Blue))",
         "(Definition/ExtraDef,(Blue,Red))", "(Definition/MissDef/#,(Green,Label/#))",
-        "(Definition/AltDef,(Blue,Red))", "(Definition/LenDef/#,(Distance/#,Green))"]
+        "(Definition/AltDef,(Blue,Red))", "(Definition/LenDef/#,(Distance/#,Green))",
+        # placeholder tag with a sibling (tag / group) that shares its text up to the '#'
+        "(Definition/CueDef/#,(Label/#,Label/Fixation))",
+        "(Definition/TwoDef/#,((Distance/#,Red),(Distance/2 m,Blue)))"]
+
+# conforming Def-expand groups of the two definitions above: values sorting before AND after the sibling's value
+PLACEHOLDER_SIBLING_EXPANSIONS = (
+    [["Def-expand/CueDef/" + v, ["Label/" + v, "Label/Fixation"]] for v in ("Alpha", "Target", "Fix", "Fixations", "a1", "zz-9")]
+    + [["Def-expand/TwoDef/" + v, [["Distance/" + v, "Red"], ["Distance/2 m", "Blue"]]]
+       for v in ("5 m", "1 m", "10 m", "2 km", "3 foot", "1.5 m")])
 # a definition written in unsorted order (former finding C01-F1, repaired by cbb8087)
 DEFS_F1 = ["(Definition/OrdDef,(Red,Blue))"]
 
@@ -218,6 +228,8 @@ class Builder:
         if not items:
             lf = self.leaf()
             items.append(lf if lf else self.V.filler)
+        if depth > 1 and self.rng.random() < 0.12:     # ((...)): a group that is the only member of its group
+            items = [items]
         return items
 
     def special(self):
@@ -338,7 +350,7 @@ STRUCT_RULES = ["unknown", "ext_term", "ext_forbidden", "placeholder", "require_
                 "tag_group", "top_level", "multi_top", "unique_dup", "repeat_tag", "repeat_group",
                 "repeat_group_permuted", "prefix", "tagchar", "empty_group", "char_in_text_value",
                 "onset_no_def", "onset_too_many_defs", "onset_wrong_groups", "onset_tag_outside",
-                "duration_other_tags", "duration_wrong_groups", "top_level_copy", "tag_group_copy"]
+                "duration_other_tags", "duration_wrong_groups", "top_level_copy", "tag_group_copy", "repeat_nested"]
 TEXT_RULES = ["char", "tilde", "curly", "paren", "empty", "missing_comma", "slash"]
 
 
@@ -476,6 +488,26 @@ def mutate(rng, V, tree, rule, ph, modern):
             return None
         a, b = rng.sample(V.temporal, 2)
         t.insert(rng.randint(0, len(t)), ["Def/OnDef2", a, b])
+        return render(t, rng)
+    if rule == "repeat_nested":
+        # a planted repeat (tag or group, copy possibly reordered / respelled) inside a fresh group that is wrapped
+        # 0-3 times in one-member groups and placed at the top level or inside an existing group (depth <= 4)
+        if len(V.plain) < 4:
+            return None
+        a, b, c = rng.sample(V.plain, 3)
+        x = rng.random()
+        if x < 0.35:
+            g = [form_of(rng, a), form_of(rng, a)]
+        elif x < 0.55:
+            g = [form_of(rng, a), form_of(rng, b), form_of(rng, a).lower()]
+        elif x < 0.8:
+            g = [[a["short"], b["short"]], [b["short"], a["short"]]]
+        else:
+            g = [[a["short"], [b["short"], c["short"]]], c["short"], [[c["short"], b["short"]], a["short"]]]
+        for _ in range(rng.randint(0, 3)):
+            g = [g]
+        tgt = get(t, rng.choice(groups)) if groups and rng.random() < 0.5 else t
+        tgt.insert(rng.randint(0, len(tgt)), g)
         return render(t, rng)
     if rule == "top_level_copy":
         # a correctly placed top-level-group construct AND an identical copy of it (same members, same order) in a
